@@ -42,6 +42,7 @@ def module_sets(tier, seed):
     sets = []
     for m in ("Sim1", "Sim2", "Sim3", "Sim4"): sets.append(["verif:corpus/%s.asn1" % m])
     sets.append(["verif:corpus/ImpA.asn1", "verif:corpus/ImpB.asn1"])
+    sets.append(["verif:corpus/ParA.asn1", "verif:corpus/ParB.asn1"])       # parameterized types in the second file
     sets.append(["verif:corpus/Sim1.asn1", "verif:corpus/Sim2.asn1", "verif:corpus/Sim3.asn1"])
     have = set(os.listdir(EXDIR)) if EXDIR else set()
     if {"rfc3280-PKIX1Explicit88.asn1", "rfc3280-PKIX1Implicit88.asn1"} <= have:
@@ -55,7 +56,7 @@ def module_sets(tier, seed):
         for _ in range(20): sets.append(rnd.sample(tests, 3))
     else:
         for t in rnd.sample(tests, 36): sets.append([t])
-        for _ in range(4): sets.append(rnd.sample(tests, 2))
+        for _ in range(10): sets.append(rnd.sample(tests, 2))
     return sets
 
 
